@@ -1,5 +1,6 @@
 from typing import Optional, Union
 
+import cbor2
 from cbor2 import CBORTag, dumps
 from cose.algorithms import EdDSA
 from cose.headers import KID, Algorithm
@@ -168,6 +169,11 @@ def verify(
     ), "signed_message must be a hex string at this point"
     decoded_message = CoseMessage.decode(bytes.fromhex("d2" + signed_message))
 
+    # The signature is checked over the re-serialized protected header, so make sure
+    # that this is byte for byte the protected header that was received.
+    received_phdr = cbor2.loads(bytes.fromhex(signed_message))[0]
+    header_intact = decoded_message.phdr_encoded == received_phdr
+
     # generate/extract the cose key
     if not attach_cose_key:
         # get the verification key from the headers
@@ -223,7 +229,7 @@ def verify(
             == StakeVerificationKey.from_primitive(verification_key).hash()
         )
 
-    verified = signature_verified & addresses_match
+    verified = signature_verified & addresses_match & header_intact
 
     return {
         "verified": verified,
